@@ -1,5 +1,6 @@
-"""Implementation side of C05: build a real Observation from Python objects, run it sequentially
-(with_dask=False) through pyxel.run_mode, and report (a) the values every run actually received
+"""Implementation side of C05: build a real Observation from Python objects, run it through pyxel.run_mode
+-- sequentially (with_dask=False) or, for cases with "dask": true, on the dask path (with_dask=True under the
+synchronous scheduler, so that the probe trace of one pipeline run is contiguous) -- and report (a) the values every run actually received
 (recorded by the probe model verif_probes_c05.observe) and (b) the complete label -> data map read
 back from the returned DataTree with .isel/.sel.  All numbers are exact multiples of 1/8 and are
 reported as integer numerators in eighths."""
@@ -129,10 +130,19 @@ def handle(case):
                     for row in tab:
                         fh.write(" ".join(repr(float(x)) for x in row) + "\n")
             kw = dict(from_file=fname, column_range=tuple(case["range"]) if case.get("range") else None)
+        use_dask = bool(case.get("dask"))
         obs = Observation(parameters=params, mode=case["mode"], readout=pyx.make_readout(times=[1.0]),
-                          with_dask=False, **kw)
-        dt = pyxel.run_mode(mode=obs, detector=det, pipeline=pipe, with_inherited_coords=True)
-        entries = dump_result(dt)
+                          with_dask=use_dask, **kw)
+        if use_dask:
+            import dask
+
+            with dask.config.set(scheduler="synchronous"):
+                dt = pyxel.run_mode(mode=obs, detector=det, pipeline=pipe, with_inherited_coords=True)
+                dt = dt.compute() if hasattr(dt, "compute") else dt
+                entries = dump_result(dt)
+        else:
+            dt = pyxel.run_mode(mode=obs, detector=det, pipeline=pipe, with_inherited_coords=True)
+            entries = dump_result(dt)
     except Exception as ex:  # noqa: BLE001
         raised = type(ex).__name__
         msg = str(ex)[:200]
